@@ -372,6 +372,49 @@ def pinv(A, **kw):
     return X
 
 
+def eigh(A):
+    """numpy.linalg.eigh(A) (UPLO='L'): the symmetric matrix read from the LOWER triangle of A; returns fresh eigenvalues w
+    (ascending) and an orthogonal V (V^T V = V V^T = 1) with A_L V = V diag(w).  Records (A_L, w, V)."""
+    from .shim import SymArray
+    A = _obj(A)
+    n = A.shape[0]
+    AL = _np.empty((n, n), dtype=object)
+    for i in range(n):
+        for j in range(n):
+            AL[i, j] = A[max(i, j), min(i, j)]
+    mkey = ('eigh-memo', _term_key((AL,)))
+    if mkey in ENG.uf_memo:
+        w, V = ENG.uf_memo[mkey][1]
+        ENG.records.setdefault('eigh', []).append((AL, w, V))
+        return w, V
+    base = ENG.fresh_name('eig')
+    w = _np.empty(n, dtype=object)
+    V = _np.empty((n, n), dtype=object)
+    for i in range(n):
+        w[i] = Sym(z3.Real('%s_w%d' % (base, i)))
+        for j in range(n):
+            V[i, j] = Sym(z3.Real('%s_v%d_%d' % (base, i, j)))
+    AV = _np.dot(AL, V)
+    VtV = _np.dot(V.T, V)
+    VVt = _np.dot(V, V.T)
+    ax = []
+    for i in range(n):
+        for k in range(n):
+            ax.append(core.tob(AV[i, k] == V[i, k] * w[k]))
+            ax.append(core.tob(VtV[i, k] == (1 if i == k else 0)))
+            ax.append(core.tob(VVt[i, k] == (1 if i == k else 0)))
+    for k in range(n - 1):
+        ax.append(core.tob(w[k] <= w[k + 1]))
+    ENG.axioms.extend(ax)
+    w = w.view(SymArray)
+    V = V.view(SymArray)
+    ENG.uf_memo[mkey] = ((AL,), (w, V))
+    ENG.records.setdefault('eigh', []).append((AL, w, V))
+    if ENG.eigh_hook is not None:
+        ENG.eigh_hook(AL, w, V)     # harness-supplied theory instance for this matrix (stated in the evidence)
+    return w, V
+
+
 def det(A):
     if not core.has_sym(A):
         return _np.linalg.det(_np.asarray(A, dtype=float))
